@@ -23,7 +23,10 @@ RULE = (
     "increasing / decreasing, nearly uniform (spacings differing by 1e-7 "
     "... 1e-5 relative), scaled by 1e-9 / 1e-6 / 1e3, given as 1-D array, as array of the shape of y "
     "(a different grid per column) or omitted; integrand values k/16 or "
-    "sign*a*10^e (|e| <= 30); a second integrand, two coefficients and a "
+    "sign*a*10^e (|e| <= 30), in 1 of 5 non-integer cases complex (u + i v, "
+    "complex coefficients in the linearity relation) or long double (hi + "
+    "lo 2^-50, not representable in float64); y C-ordered, Fortran-ordered "
+    "or a reversed view; a second integrand, two coefficients and a "
     "split level for linearity / additivity / reversal.  profiles: analytic "
     "T(p) (isothermal, lapse rate with stratospheric asymptote, two-layer "
     "with the kink at a level of every grid), vmr(p) (power law in p = "
@@ -35,7 +38,8 @@ RULE = (
     "rectangular horizontal grids, level axis at every position, also "
     "negative) with drawn T in 185-300 K that differs between the columns "
     "and q = beta * q_sat.  heights: pressure2height on irregular decreasing pressure grids "
-    "of 2-2000 levels with no / isothermal / arbitrary temperatures; the ISA "
+    "of 2-2000 levels (a third of them stored top-down, i.e. with "
+    "increasing pressure) with no / isothermal / arbitrary temperatures; the ISA "
     "table levels are enumerated.  Integer-typed input is a class of its "
     "own: whole-Pa pressure grids as int64 / int32 arrays and lists of ints "
     "(also in equal steps of 1-250 Pa), whole-K temperatures and whole-metre "
@@ -47,6 +51,14 @@ RULE = (
     "Distinct = distinct case hash."
 )
 ASSUMPTIONS = [
+    "integrate_column is documented as a plain wrapper of numpy's "
+    "trapezoid, and the property quantifies over all integrands and claims "
+    "linearity: complex128 and long double integrands (which trapezoid "
+    "integrates in their own type) are therefore taken as inside the "
+    "domain - real and imaginary part resp. hi and lo part are compared with "
+    "the exact integral separately (long double with 2^-64 instead of 2^-53 "
+    "in the tolerance).  Masked arrays are not generated (their treatment "
+    "is not stated anywhere)",
     "integrate_column: float ndarrays, values 0 or 1e-60 <= |v| <= 1e60 (no "
     "overflow / underflow of the panel products); x strictly monotone; "
     "tolerance |I - exact| <= 2 (N+4) 2^-53 * sum |panel| (3 roundings per "
@@ -66,6 +78,11 @@ ASSUMPTIONS = [
     "1/16)",
     "p is an ndarray or a list of numbers; T, z, vmr, q are ndarrays (a "
     "list for T fails in density(): documented as ndarray)",
+    "pressure2height on a grid stored top-down: unchanged typhon returns 0 "
+    "at the first level and negative heights below it; the clauses 'starts "
+    "at 0', 'higher where the pressure is lower', z = (R T/g) ln(p[0]/p) "
+    "and the layer-mean-density closed form are applied with p0 = p[0] in "
+    "either direction, and reversing the grid must mirror the heights",
     "pressure2height: neighbouring levels differ by at least 1e-6 relative "
     "(otherwise a layer is thinner than the rounding error of the height)",
     "standard_atmosphere vs the ISA definition (T0 = 288.15 K, p0 = 101325 "
@@ -221,6 +238,17 @@ def integral_cases(draw, nmax=10000):
             xa = np.moveaxis(cols.reshape(other + [N]), -1, pos)
             x = xa.reshape(-1).tolist()
     coef = st.sampled_from([1.0, -1.0, 2.0, 0.5, -0.25, 3.0, 0.0])
+    # value type of the integrand: real float64, complex128 (u + i v) or
+    # long double (hi + lo * 2^-50, not representable in float64)
+    ykind = "real"
+    extra = {}
+    if style != "int" and N <= 3000 and draw(st.integers(0, 4)) == 0:
+        ykind = "complex" if (style == "float" or draw(st.booleans())) \
+            else "longdouble"
+        extra = {"y_b": values(total), "y2_b": values(total)}
+        if ykind == "complex":
+            extra.update({"a_im": draw(coef), "b_im": draw(coef)})
+    extra["ylayout"] = draw(st.sampled_from(["C", "C", "F", "reversed"]))
     ytype = xtype = "float"
     if style == "int":
         ytype = draw(st.sampled_from(["int64", "int32"]))
@@ -228,7 +256,7 @@ def integral_cases(draw, nmax=10000):
             ["int64", "int32", "float"]
             + (["list-int"] if xmode == "1d" else [])))
     return {"shape": shape, "axis": axis, "style": style, "xmode": xmode,
-            "ytype": ytype, "xtype": xtype,
+            "ytype": ytype, "xtype": xtype, "ykind": ykind, **extra,
             "xscale": xscale if xmode != "none" else 1.0,
             "grid": grid if xmode != "none" else "unit",
             "direction": direction if xmode != "none" else "increasing",
@@ -253,6 +281,41 @@ def check_integral(case, ctx):
     ytype, xtype = case.get("ytype", "float"), case.get("xtype", "float")
     y = typed(case["y"], ytype).reshape(shape)
     y2 = typed(case["y2"], ytype).reshape(shape)
+    ykind = case.get("ykind", "real")
+    # (re, im) resp. (hi, lo) parts as float64 arrays for the exact oracle
+    parts = [(y, y2)]
+    wgt = [1]
+    rdt, EPS = float, U
+    if ykind == "complex":
+        yb = np.array(case["y_b"], dtype=float).reshape(shape)
+        y2b = np.array(case["y2_b"], dtype=float).reshape(shape)
+        parts.append((yb, y2b))
+        wgt = [1, 1]
+        y, y2 = y + 1j * yb, y2 + 1j * y2b
+        rdt = complex
+    elif ykind == "longdouble":
+        from fractions import Fraction as _F
+        yb = np.array(case["y_b"], dtype=float).reshape(shape)
+        y2b = np.array(case["y2_b"], dtype=float).reshape(shape)
+        parts.append((yb, y2b))
+        wgt = [1, _F(1, 2 ** 50)]
+        sc = LD(2) ** -50
+        yl, y2l = y.astype(LD) + yb.astype(LD) * sc, \
+            y2.astype(LD) + y2b.astype(LD) * sc
+        if not (np.array_equal((yl - y.astype(LD)) / sc, yb.astype(LD))
+                and np.array_equal((y2l - y2.astype(LD)) / sc,
+                                   y2b.astype(LD))):
+            raise AssertionError("generator: hi + lo 2^-50 is not exact")
+        y, y2 = yl, y2l
+        rdt, EPS = LD, 2.0 ** -64
+    ctx.label("integrand-" + ykind)
+    lay = case.get("ylayout", "C")
+    ctx.label("y-layout-" + lay)
+    if lay == "F":
+        y, y2 = np.asfortranarray(y), np.asfortranarray(y2)
+    elif lay == "reversed":
+        y = np.ascontiguousarray(y[::-1])[::-1]
+        y2 = np.ascontiguousarray(y2[::-1])[::-1]
     xmode = case["xmode"]
     x_list = None
     if xmode == "none":
@@ -295,33 +358,48 @@ def check_integral(case, ctx):
     ctx.check(np.shape(got) == out_shape, "integral/shape", lambda: (
         "y shape %r axis %r: result shape %r, expected %r" % (
             shape, axis, np.shape(got), out_shape)))
-    gflat = np.asarray(got, dtype=float).reshape(-1)
+    gflat = np.asarray(got, dtype=rdt).reshape(-1)
     ycols = columns(y, pos)
+    pcols = [columns(pr[0], pos) for pr in parts]
     xcols = None if xmode != "nd" else columns(x, pos)
     tol = np.zeros(len(ycols))
     S = np.zeros(len(ycols))
-    for c, col in enumerate(ycols):
+    for c in range(len(ycols)):
         xc = None if x is None else (x if xmode == "1d" else xcols[c])
-        exact, asum = trapezoid_exact(col.tolist(),
-                                      None if xc is None else xc.tolist())
-        S[c] = float(asum)
-        tol[c] = 2.0 * (N + 4) * U * S[c] + 1e-300
-        err = abs(float(exact - _frac(gflat[c])))
+        xl = None if xc is None else xc.tolist()
+        ex = [trapezoid_exact(pc[c].tolist(), xl) for pc in pcols]
+        S[c] = float(sum(w * e[1] for w, e in zip(wgt, ex)))
+        tol[c] = 2.0 * (N + 4) * EPS * S[c] + 1e-300
+        if ykind == "complex":
+            errs = [abs(float(ex[0][0] - _frac(gflat[c].real))),
+                    abs(float(ex[1][0] - _frac(gflat[c].imag)))]
+            exact = complex(float(ex[0][0]), float(ex[1][0]))
+        else:
+            exact = sum(w * e[0] for w, e in zip(wgt, ex))
+            errs = [abs(float(exact - _frac(gflat[c])))]
+            exact = float(exact)
+        err = max(errs)
         ctx.check(err <= tol[c], "integral/value", lambda: (
-            "shape %r axis %r x-%s column %d: got %r, exact %r (error %.3g, "
-            "tolerance %.3g)" % (shape, axis, xmode, c, gflat[c],
-                                 float(exact), err, tol[c])))
+            "%s integrand, shape %r axis %r x-%s column %d: got %r, exact %r "
+            "(error %.3g, tolerance %.3g)" % (
+                ykind, shape, axis, xmode, c, gflat[c], exact, err, tol[c])))
+    if ykind == "complex":
+        tol = 2 * tol
+    elif ykind == "longdouble":
+        tol = tol * (U / EPS)       # relations: double-precision tolerances
 
     def integ(yy, xx):
         if xx is None:
             return np.asarray(integrate_column(yy, axis=axis),
-                              dtype=float).reshape(-1)
+                              dtype=rdt).reshape(-1)
         return np.asarray(integrate_column(yy, xx, axis=axis),
-                          dtype=float).reshape(-1)
+                          dtype=rdt).reshape(-1)
 
     # linear in y.  The elements of a*y + b*y2 are rounded, so the bound uses
     # A = sum |dx| (|y_i| + |y_i+1|) / 2 >= sum |panel|
     a, b = case["a"], case["b"]
+    if ykind == "complex":              # linear over the complex numbers
+        a, b = complex(a, case["a_im"]), complex(b, case["b_im"])
     g2 = integ(y2, x)
 
     def abs_integral(yy):
@@ -337,6 +415,8 @@ def check_integral(case, ctx):
     Az = abs(a) * abs_integral(y) + abs(b) * abs_integral(y2)
     gz = integ(a * y + b * y2, x)
     lim = 2.0 * (2 * N + 16) * U * Az * (1 + 1e-9) + 1e-300
+    if ykind == "complex":
+        lim = 4 * lim                   # complex products: 6 roundings each
     bad = np.abs(gz - (a * gflat + b * g2)) > lim
     ctx.check(not bad.any(), "integral/not-linear", lambda: (
         "I(%r y + %r y2) = %r, %r I(y) + %r I(y2) = %r" % (
@@ -378,8 +458,12 @@ def check_integral(case, ctx):
 
 
 def _frac(v):
+    """exact rational value of a float64 or long double number"""
     from fractions import Fraction
-    return Fraction(float(v))
+    hi = float(v)
+    if isinstance(v, np.longdouble):
+        return Fraction(hi) + Fraction(float(v - np.longdouble(hi)))
+    return Fraction(hi)
 
 
 # ==========================================================================
@@ -915,7 +999,12 @@ def height_cases(draw):
         T = vec(st.floats(150.0, 350.0, allow_nan=False), N)
     if T is not None and Ttype != "float":
         T = [float(round(v)) for v in T]             # whole K
-    return {"p": p, "T": T, "mode": mode, "grid": gridname,
+    # profiles stored from the top downwards (increasing pressure)
+    order = draw(st.sampled_from(["bottom-up", "bottom-up", "top-down"]))
+    if order == "top-down":
+        p = p[::-1]
+        T = T[::-1] if T is not None else None
+    return {"p": p, "T": T, "mode": mode, "grid": gridname, "order": order,
             "ptype": ptype, "Ttype": Ttype if T is not None else "float"}
 
 
@@ -928,7 +1017,10 @@ def check_heights(case, ctx):
     label_types(ctx, p=ptype, T=Ttype)
     N = p.size
     mode = case["mode"]
-    ctx.label("T-" + mode, "grid-" + case["grid"], "decreasing")
+    down = bool(p[0] < p[-1])               # stored top-down
+    sgn = -1.0 if down else 1.0
+    ctx.label("T-" + mode, "grid-" + case["grid"],
+              "increasing-pressure(top-down)" if down else "decreasing")
     if mode == "isothermal":
         ctx.label("isothermal")
     if N >= 100:
@@ -948,6 +1040,21 @@ def check_heights(case, ctx):
                                                        atol=0),
                   "p2h/default-is-not-standard-atmosphere", lambda: (
                       "max difference %r" % np.abs(z - z2).max()))
+        if N >= 3:
+            # history: another grid with the same size and the same end
+            # levels (interior levels moved half a layer) in the same process
+            ps = p.copy()
+            ps[1:-1] = p[1:-1] + 0.5 * (p[2:] - p[1:-1])
+            zs = np.asarray(pressure2height(ps), dtype=float)
+            zs2 = pressure2height(ps, np.asarray(standard_atmosphere(
+                ps, coordinates="pressure"), dtype=float))
+            ctx.label("isa-second-grid-with-same-size-and-end-levels")
+            ctx.check(zs.shape == (N,) and np.allclose(zs, zs2, rtol=1e-14,
+                                                       atol=0),
+                      "p2h/default-depends-on-earlier-calls", lambda: (
+                          "second grid with the same size and end levels: "
+                          "max difference to the explicit standard "
+                          "atmosphere %r m" % np.abs(zs - zs2).max()))
     else:
         T = np.array(case["T"], dtype=float)
         z = pressure2height(p_arg, T if Ttype == "float" else T.astype(Ttype))
@@ -955,9 +1062,11 @@ def check_heights(case, ctx):
     z = np.asarray(z, dtype=float)
     ctx.check(z.shape == (N,), "p2h/shape", lambda: repr(z.shape))
     ctx.check(z[0] == 0, "p2h/does-not-start-at-0", lambda: repr(z[0]))
-    ctx.check(bool((np.diff(z) > 0).all()), "p2h/not-increasing", lambda: (
-        "first non-increasing step at level %d: %r" % (
-            int(np.argmax(np.diff(z) <= 0)), z[:6])))
+    # strictly higher where the pressure is lower, in either storage order
+    ctx.check(bool((sgn * np.diff(z) > 0).all()), "p2h/not-increasing",
+              lambda: (
+        "heights do not rise with falling pressure at level %d: p %r z %r" % (
+            int(np.argmax(sgn * np.diff(z) <= 0)), p[:6], z[:6])))
     # closed form of the layer-mean-density scheme
     Rd, g = LD(c.gas_constant_dry_air), LD(c.g)
     pl, Tl = p.astype(LD), T.astype(LD)
@@ -965,7 +1074,7 @@ def check_heights(case, ctx):
     dzl = 2 * (pl[:-1] - pl[1:]) / (g * (rho[:-1] + rho[1:]))
     ref = np.r_[LD(0), np.cumsum(dzl)]
     err = np.abs(z.astype(LD) - ref)
-    tol = (1e-12 + 4 * N * U) * ref
+    tol = (1e-12 + 4 * N * U) * np.abs(ref)
     ctx.check(bool((err <= tol).all()), "p2h/layer-mean-density", lambda: (
         "level %d: z=%r, sum 2 dp / (g (rho_i + rho_i+1)) = %r" % (
             int(np.argmax(err - tol)), z[int(np.argmax(err - tol))],
@@ -974,15 +1083,31 @@ def check_heights(case, ctx):
         H = Rd * Tl[0] / g
         lnr = np.log(pl[:-1] / pl[1:])
         law = np.r_[LD(0), np.cumsum(lnr)] * H
-        slack = np.r_[LD(0), np.cumsum(lnr ** 3 / 12)] * H
-        d = law - z.astype(LD)
-        ctx.check(bool(((d >= -1e-12 * law) & (d <= slack * (1 + 1e-9)
-                                                + 1e-12 * law)).all()),
+        slack = np.r_[LD(0), np.cumsum(np.abs(lnr) ** 3 / 12)] * H
+        # |2 tanh(L/2)| <= |L|: the scheme stays on the near side of the law
+        d = LD(sgn) * (law - z.astype(LD))
+        ctx.check(bool(((d >= -1e-12 * np.abs(law))
+                        & (d <= slack * (1 + 1e-9)
+                           + 1e-12 * np.abs(law))).all()),
                   "p2h/isothermal-log-law", lambda: (
                       "z=%r..., (RT/g) ln(p0/p)=%r..., allowed deficit %r" % (
                           z[-3:], law[-3:].astype(float),
                           slack[-3:].astype(float))))
 
+    # the same column stored in the other direction: the heights are the
+    # mirrored ones, counted from the other end
+    if mode == "isa":
+        zr = pressure2height(p_arg[::-1])
+    else:
+        Tr = (T if Ttype == "float" else T.astype(Ttype))[::-1]
+        zr = pressure2height(p_arg[::-1], Tr)
+    zr = np.asarray(zr, dtype=float)
+    mir = z[::-1] - z[-1]
+    ctx.check(zr.shape == (N,) and zr[0] == 0 and bool(
+        (np.abs(zr - mir) <= (1e-12 + 8 * N * U) * np.abs(z).max()).all()),
+        "p2h/not-mirrored-for-reversed-grid", lambda: (
+            "reversed grid: %r..., mirrored heights %r..." % (
+                zr[:4], mir[:4])))
     ctx.check(np.issubdtype(z_raw.dtype, np.floating),
               "p2h/result-not-float", lambda: (
                   "p %s: heights have dtype %r: %r" % (
